@@ -586,7 +586,7 @@ Proof.
   - inversion H. cbn. lia.
   - cbn [q_loop] in H. apply SearchProofs.bind_ok in H. destruct H as (stp & _ & H).
     apply SearchProofs.bind_ok in H. destruct H as (c & _ & H). cbv zeta in H.
-    destruct (check_up (pop (ist c))) as [up st''].
+    destruct (check_up (poll (pop (ist c)))) as [up st''].
     destruct up; [inversion H; cbn [iv ir]; lia|].
     destruct (- iv c >=? beta) eqn:E1; [inversion H; cbn [iv ir]; lia|].
     destruct (- iv c >? alpha) eqn:E2.
@@ -612,8 +612,8 @@ Proof.
     apply SearchProofs.bind_ok in H. destruct H as (c & C & H). cbv zeta in H.
     destruct (push_top _ _ _ _ P T) as (p' & M & T' & _).
     pose proof (child_lower stp p' _ _ c T' (OK m p' (or_introl eq_refl) M) C) as LB.
-    pose proof (keeps_push_pop _ _ _ _ P (child_keeps _ _ _ _ C)) as K1.
-    pose proof (keeps_check_up (pop (ist c))) as K2. destruct (check_up (pop (ist c))) as [up st''].
+    pose proof (keeps_trans _ _ _ (keeps_push_pop _ _ _ _ P (child_keeps _ _ _ _ C)) (keeps_poll (pop (ist c)))) as K1.
+    pose proof (keeps_check_up (poll (pop (ist c)))) as K2. destruct (check_up (poll (pop (ist c)))) as [up st''].
     cbn [snd] in K2. pose proof (keeps_top' _ _ _ (keeps_trans _ _ _ K1 K2) T) as T2.
     assert (OK' : forall m p', In m l -> make_legal p (rm m) = Ok p' -> okm p') by (intros; eapply OK; eauto; right; assumption).
     destruct up; [inversion H; cbn [iv ir]; lia|].
